@@ -247,7 +247,7 @@ func scenarios(tier string) []*vsched.Scenario {
 	}
 	out = append(out,
 		pairScenario("fixed", 1, 7, false, b, false), // more requests than the channel buffer (5)
-		pairScenario("fixed", 2, 2, true, 3, true), // delay bounding: the pre-emption-bounded space of 2x2 requests is large
+		pairScenario("fixed", 2, 2, true, 3, true),   // delay bounding: the pre-emption-bounded space of 2x2 requests is large
 		pairScenario("echo", 3, 1, false, 3, true),
 		pairScenario("fixed", 7, 1, false, 1, true), // 7 pending requests at once (> buffer): delay bounding
 		startWithValScenario(false, b), startWithValScenario(true, b), doNotationScenario(b))
